@@ -51,6 +51,21 @@ def memsetEndT (p : PbT) (ch : UInt8) (len : Int) : A (PbT × Int) :=
 
 def hasFlag (flags bit : Nat) : Bool := flags &&& bit ≠ 0
 
+/-- decimal digits of `n`, most significant first (`fuel` ≥ number of digits) -/
+def natDigits : Nat → Nat → Bytes → Bytes
+  | 0, _, acc => acc
+  | fuel + 1, n, acc =>
+    let acc := UInt8.ofNat (48 + n % 10) :: acc
+    if n / 10 = 0 then acc else natDigits fuel (n / 10) acc
+
+/-- what snprintf("%" PRId64 / PRIu64) writes -/
+def intBytes (v : Int) : Bytes :=
+  if v < 0 then 45 :: natDigits 20 (-v).toNat [] else natDigits 20 v.toNat []
+
+def bytesTrue : Bytes := [116, 114, 117, 101]
+def bytesFalse : Bytes := [102, 97, 108, 115, 101]
+def bytesNull : Bytes := [110, 117, 108, 108]
+
 /-- static void indent(struct printbuf *pb, int level, int flags) -/
 def indentT (p : PbT) (level : Nat) (flags : Nat) : A PbT :=
   if hasFlag flags toStringPretty then do
@@ -113,7 +128,7 @@ def quotedT (flags : Nat) (color : Bytes) (s : Bytes) (p : PbT) : A PbT := do
 
 def nullT (flags : Nat) (p : PbT) : A PbT := do
   let p ← litIf (hasFlag flags toStringColor) p colorMagenta
-  let p ← lit p (strBytes "null")
+  let p ← lit p bytesNull
   litIf (hasFlag flags toStringColor) p colorReset
 
 def spacedOnly (flags : Nat) : Bool := hasFlag flags toStringSpaced && !hasFlag flags toStringPretty
@@ -130,13 +145,13 @@ mutual
     | .null, _, p => pure (some (p, 0))            -- never called: NULL children are written by the container
     | .bool b, _, p => do
       let p ← litIf (hasFlag flags toStringColor) p colorMagenta
-      let (p, ret) ← appendT p (strBytes (if b then "true" else "false"))
+      let (p, ret) ← appendT p (if b then bytesTrue else bytesFalse)
       if ret > -1 ∧ hasFlag flags toStringColor then do
         let (p, r2) ← appendT p colorReset
         pure (some (p, r2))
       else pure (some (p, ret))
     | .int _ v, _, p => do
-      let r ← appendT p (strBytes (toString v))
+      let r ← appendT p (intBytes v)
       pure (some r)
     | .dbl _ (some t), _, p => do
       -- json_object_userdata_to_json_string: the result of the append is not looked at
@@ -219,7 +234,7 @@ serialised before (`_pb == NULL`).  Outer `none`: value not covered by the model
 def serialize (v : JVal) (flags : Nat) : A (Option SerRes) := do
   if v matches .null then
     -- jso == NULL: the static text "null", no printbuf
-    return some { text := some (strBytes "null"), pb := none, dropped := false }
+    return some { text := some bytesNull, pb := none, dropped := false }
   match ← pbNew with
   | none => pure (some { text := none, pb := none, dropped := false })
   | some pa =>
